@@ -548,6 +548,9 @@ theorem appender_lenPrefixed {body : Enc → ERes Unit} (hb : Appender body) : A
       rw [if_neg (by omega)]
       simp only
       have hin : start + 2 ≤ e2.buf.length := by rw [← hb1.app]; exact hge
+      by_cases hbig : e2.offset - start - 2 > 65535
+      · simp only [hbig, ↓reduceIte]
+      simp only [hbig, ↓reduceIte]
       cases hr : e2.placeReplace start 2 (fun x => x.emitU16 (e2.offset - start - 2)) with
       | panic s => trivial
       | err k e3 =>
